@@ -53,7 +53,7 @@ func init() {
 			}
 			t := i.w.newInput(a[0].(string), 64)
 			i.w.assume(mkBin(OpUlt, t, mkConst(64, uint64(n))))
-			return int(i.w.pick(t))
+			return int(i.w.pickN(t, int(n)))
 		},
 		"vAssume": func(i *interpreter, fr *frame, fn *ssa.Function, a []value) value {
 			switch c := a[0].(type) {
